@@ -208,7 +208,17 @@ fn run_case(case: &Value) -> Value {
                             None,
                             &mut errs2,
                         ) {
-                            Ok(_) => errs2.is_empty(),
+                            Ok(m2) => {
+                                // literal round trip: the string literals of the tree the visitor produced and of the
+                                // re-parsed printed text must have the same VALUES, in order (a stale `raw` text shows here)
+                                let a = str_values(&out);
+                                let b = str_values(&m2);
+                                if a != b {
+                                    let i = a.iter().zip(b.iter()).position(|(x, y)| x != y).unwrap_or(a.len().min(b.len()));
+                                    rec["str_roundtrip"] = json!({"index": i, "ast": a.get(i), "printed": b.get(i), "n_ast": a.len(), "n_printed": b.len()});
+                                }
+                                errs2.is_empty()
+                            }
                             Err(_) => false,
                         };
                         rec["printed"] = Value::String(text);
@@ -223,6 +233,20 @@ fn run_case(case: &Value) -> Value {
         }
         rec
     })
+}
+
+/// the values of all string literals of a module, in visit order
+fn str_values(m: &Module) -> Vec<String> {
+    use swc_core::ecma::visit::{Visit, VisitWith};
+    struct C(Vec<String>);
+    impl Visit for C {
+        fn visit_str(&mut self, s: &swc_core::ecma::ast::Str) {
+            self.0.push(s.value.to_string());
+        }
+    }
+    let mut c = C(vec![]);
+    m.visit_with(&mut c);
+    c.0
 }
 
 /// leading comments the visitor can see: at module.span.lo and at each top-level item's span.lo
